@@ -98,6 +98,14 @@ func genSpec(r *Rand, wallets []string) specInfo {
 		wp = wallets[0] + "|" + wallets[1]
 	case k < 6:
 		wp = w + "|zz"
+	case k < 8 && len(wallets) > 1:
+		wp = groupedWalletPart(r, wallets[0], wallets[1])
+	case k < 10:
+		if r.Bool() {
+			wp = groupedWalletPart(r, w, "zz")
+		} else {
+			wp = groupedWalletPart(r, "zz", w)
+		}
 	}
 	wp = anchor(r, wp, 12)
 	var part accountPart
@@ -109,15 +117,23 @@ func genSpec(r *Rand, wallets []string) specInfo {
 			info.spec = wp + "/"
 		}
 		return info
-	case k < 22:
-		part = pick(r, alternationParts)
-	case k < 26:
+	case k < 28:
+		part = genAlternationPart(r)
+	case k < 32:
 		part = accountPart{pick(r, invalidParts), []string{"a", "ab"}}
 	default:
 		part = pick(r, accountParts)
 	}
 	info.samples = part.names
 	ap := anchor(r, part.text, 25)
+	// a part with a blank in front or behind: used as written, so it names other wallets/accounts
+	if r.Chance(1, 60) {
+		wp = blank(r, wp)
+	}
+	if r.Chance(1, 60) {
+		ap = blank(r, ap)
+		info.samples = append(append([]string{}, info.samples...), " "+part.names[0], part.names[0]+" ")
+	}
 	info.spec = wp + "/" + ap
 	if r.Chance(1, 50) {
 		info.spec += "/more"
@@ -202,8 +218,13 @@ func gen(r *Rand) Input {
 	if r.Chance(35, 100) {
 		w := wallets[0]
 		nb := w + "a"
-		if r.Bool() {
+		switch r.Intn(5) {
+		case 0, 1:
 			nb = "a" + w
+		case 2:
+			if c := swapCase(w); c != w {
+				nb = c // a wallet whose name differs only by the case of a letter
+			}
 		}
 		infos = append(infos, specInfo{spec: nb + "/zzz", wallet: nb, samples: infos[0].samples})
 	}
@@ -218,16 +239,20 @@ func gen(r *Rand) Input {
 	add := func(w, n string) {
 		// names that differ from a wanted one only by white space, or that contain a line feed
 		// (which `.` does not match)
-		if r.Chance(1, 14) {
-			switch r.Intn(4) {
+		if r.Chance(1, 11) {
+			switch r.Intn(6) {
 			case 0:
 				n = " " + n
 			case 1:
 				n += " "
 			case 2:
 				n += "\n"
-			default:
+			case 3:
 				n += "\nx"
+			case 4:
+				n = swapCase(n) // names that differ from a wanted one only by the case of a letter
+			default:
+				n = strings.ToUpper(n)
 			}
 		}
 		if !seen[wn{w, n}] && w != "" {
